@@ -790,7 +790,8 @@ func (p *parser) readEqOp() (o *op) {
 		b = p.buf[p.pos]
 	}
 	o = opMap[string(token)]
-	if o == nil {
+	if o == nil || o.prec == 0 {
+		// ! and the functions are not infix operators
 		p.raise("'%s' is not a valid operation", token)
 	}
 	return
